@@ -27,14 +27,14 @@ def c17_queries(enc):
     # (1) a blocking receive returns empty-handed only because it consumed a token
     qs.append(('blocking-recv-empty-only-on-token', SK['pop_none_without_token'], [nf]))
     # (2) conservation: tokens consumed + tokens queued == unblock calls done, at every step
-    cons = [enc.S[k]['tokens_popped'] + tokens_in_queue(enc, enc.S[k]) != enc.S[k]['unblocks_done'] for k in range(K + 1)]
+    cons = [enc.S[k]['tokens_popped'] + tokens_in_queue(enc, enc.S[k]) != enc.S[k]['unblocks_done'] for k in [K]]
     qs.append(('token-conservation', z3.Or(*cons), [nf]))
     # (3) tokens never remove / duplicate / reorder requests
     dup = z3.Or(*[z3.UGE(SK['dcount:%d' % i], 2) for i in enc.ids] + [SK['bad_payload']])
     qs.append(('requests-not-duplicated', dup, [nf]))
     lost = []
     stuck = []
-    for k in range(K + 1):
+    for k in [K]:    # stuttering is allowed, so a state reachable at any step is reachable at step K
         Sk = enc.S[k]
         qk = enc.quiescent(Sk)
         for i in enc.ids:
